@@ -214,10 +214,11 @@ def model_realmat(part, rows, cols, c_rows, c_cols):
     return R, dropped
 
 
-def compare_model(model, leaves_wire, tree_wire, res, cin, cout):
+def compare_model(model, leaves_wire, tree_wire, res, cin, cout, rep=None):
     """returns None when the model's derived eval/adj matrices equal the real ones, else a description"""
     try:
-        rep = model.call("derive", leaves=leaves_wire, tree=tree_wire)
+        if rep is None:
+            rep = model.call("derive", leaves=leaves_wire, tree=tree_wire)
     except ModelErr as e:
         return {"model_err": e.kind}
     n = res["RA"].shape[1] // (2 if cin else 1)
@@ -673,6 +674,7 @@ def correspond(ctx, model):
     # 4. leaf models ------------------------------------------------------------------------------------------------
     leaf_models(ctx, model, rng)
     spectral_models(ctx, model, rng)
+    closed_models(ctx, model, rng)
     # 5. random derivation trees against the Lean model -------------------------------------------------------------
     ntrees = ctx.n(45, 90)
     maxd = ctx.n(3, 5)
@@ -878,46 +880,127 @@ def leaf_models(ctx, model, rng):
 
 
 
-def spectral_models(ctx, model, rng):
-    """CircularConvolve AS CODED (transform domain): `Op.spectral` (+ real-part wrappers) built from the object's own
-    `h_dft` must reproduce eval and adj - integer and fractional `h_center`, `h_is_dft=True`, filters shorter/longer than
-    the signal, real/complex filter and signal (theorems C01_circ_dft_domain, C01_dft_pair, C01_circ_real_wrappers)"""
+def closed_models(ctx, model, rng):
+    """class-specific overrides of Diagonal / ScaledIdentity / Identity / MatrixOperator (.T .H .conj() gram_op + - * / @):
+    the operator the REAL override returns must equal the closed form of theorems C01_diagonal_overrides /
+    C01_matrix_overrides computed by the model from the operand data (driver op `closed`)"""
     import jax.numpy as jnp
     from scico import linop
 
-    for t in range(ctx.n(14, 90)):
-        n = int(rng.integers(1, 7))
+    forms = ["T", "H", "conj", "gram", "add", "sub", "smul", "sdiv", "comp"]
+    for t in range(ctx.n(36, 240)):
+        dt = [G.R64, G.C128, G.C128][int(rng.integers(3))]
+        cx = G.cplx(dt)
+        form = forms[t % len(forms)]
+        cls = ["Diagonal", "ScaledIdentity", "Identity", "MatrixOperator", "MatrixOperator"][int(rng.integers(5))]
+        cval = complex(float(rng.integers(1, 4)), float(rng.integers(-2, 3)) if cx else 0.0)
+        cpy = cval if cx else cval.real
+        req = {"form": form, "c": [common.f2b(cval.real), common.f2b(cval.imag)]}
+        with warnings.catch_warnings():
+            warnings.simplefilter("ignore")
+            if cls == "MatrixOperator":
+                m, n = int(rng.integers(1, 4)), int(rng.integers(1, 4))
+                A = G.dy(rng, (m, n), cx)
+                bshape = (n, int(rng.integers(1, 4))) if form == "comp" else (m, n)
+                B = G.dy(rng, bshape, cx)
+                a, b = linop.MatrixOperator(jnp.asarray(A, dtype=dt)), linop.MatrixOperator(jnp.asarray(B, dtype=dt))
+                req.update({"cls": "mat", "m": m, "n": n, "Ar": fs2b(np.real(A)), "Ai": fs2b(np.imag(A) if cx else np.zeros_like(A)),
+                            "bm": bshape[0], "bn": bshape[1], "Br": fs2b(np.real(B)), "Bi": fs2b(np.imag(B) if cx else np.zeros_like(B))})
+            else:
+                shape = [(3,), (2, 2), (1, 3)][int(rng.integers(3))]
+                n = int(np.prod(shape))
+
+                def mk(which):
+                    if which == "Diagonal":
+                        d = G.dy(rng, shape, cx)
+                        return linop.Diagonal(jnp.asarray(d, dtype=dt), input_dtype=dt), np.asarray(d).ravel()
+                    if which == "ScaledIdentity":
+                        sc = complex(float(rng.integers(-2, 3)), float(rng.integers(-2, 3)) if cx else 0.0)
+                        return linop.ScaledIdentity(sc if cx else sc.real, shape, input_dtype=dt), np.full(n, sc)
+                    return linop.Identity(shape, input_dtype=dt), np.ones(n)
+
+                a, d = mk(cls)
+                b, e = mk(["Diagonal", "ScaledIdentity", "Identity"][int(rng.integers(3))])
+                req.update({"cls": "diag", "n": n, "dr": fs2b(np.real(d)), "di": fs2b(np.imag(d) if np.iscomplexobj(d) else np.zeros(n)),
+                            "er": fs2b(np.real(e)), "ei": fs2b(np.imag(e) if np.iscomplexobj(e) else np.zeros(n))})
+            R = {"T": lambda: a.T, "H": lambda: a.H, "conj": lambda: a.conj(), "gram": lambda: a.gram_op, "add": lambda: a + b,
+                 "sub": lambda: a - b, "smul": lambda: cpy * a, "sdiv": lambda: a / cpy, "comp": lambda: a @ b}[form]()
+            res = D.check_operator(R, rng)
+        desc = {"closed": {"cls": cls, "form": form, "dt": dt, "result_class": type(R).__name__}}
+        ctx.case({"stream": "closed-form", "cls": cls, "form": form, "dt": dt, "result": type(R).__name__}, ("closed", json.dumps(req, sort_keys=True)))
+        ctx.count(f"closed-form:{cls}:{form}")
+        if res.get("RA") is None or not res["ok"]:
+            ctx.disagree("adjoint.closed", dict(desc, request=req), _js(res["fails"]), "adjoint pair", oracle=None)
+            continue
+        try:
+            rep = model.call("closed", **req)
+        except ModelErr as ex:
+            ctx.disagree("adjoint.closed", dict(desc, request=req), "built", {"model_err": ex.kind})
+            continue
+        cin, cout = D.is_complex(R.input_dtype), D.is_complex(R.output_dtype)
+        diff = compare_model(model, None, None, res, cin, cout, rep=rep)
+        if diff is not None:
+            ctx.disagree("adjoint.closed", dict(desc, request=req), "dense matrices of the operator the override returns", diff)
+
+
+def spectral_models(ctx, model, rng):
+    """CircularConvolve AS CODED (transform domain): `Op.spectral` (+ real-part wrappers) built from the object's own
+    `h_dft` must reproduce eval and adj - ndims 1 and 2, integer and fractional `h_center`, `h_is_dft=True`, filters
+    shorter/longer than the signal, real/complex filter and signal, and the batch axes: filters batched against one signal
+    (model: vertical stack of spectral leaves - `_adj` sums over the batch axis), filters and signals batched (diagonal
+    stack), singleton signal axis broadcast against the filter batch (theorems C01_circ_dft_domain, C01_dft_pair,
+    C01_dft_nd_pair, C01_circ_real_wrappers, C01_derived for the stacks)"""
+    import jax.numpy as jnp
+    from scico import linop
+
+    for t in range(ctx.n(20, 120)):
+        nd = 1 if rng.random() < 0.55 else 2
+        dims = [int(rng.integers(1, 6))] if nd == 1 else [int(rng.integers(1, 4)), int(rng.integers(1, 4))]
+        n = int(np.prod(dims))
+        batch = ["none", "none", "filters", "both", "singleton"][int(rng.integers(5))]
+        k = int(rng.integers(2, 4)) if batch != "none" else 1
         hdt = [G.R64, G.C128][int(rng.integers(2))]
         idt = hdt if rng.random() < 0.6 else [G.R64, G.C128][int(rng.integers(2))]
         mode = ["plain", "center-int", "center-frac", "is-dft"][int(rng.integers(4))]
         kw = {}
+        bsh = [k] if batch != "none" else []
         if mode == "is-dft":
-            h = G.dy(rng, (n,), True)
+            h = G.dy(rng, tuple(bsh + dims), True)
             kw["h_is_dft"] = True
             harr = jnp.asarray(h, dtype=np.complex128)
         else:
-            L = int(rng.integers(1, n + 2))
-            h = G.dy(rng, (L,), G.cplx(hdt))
+            L = [int(rng.integers(1, d + 2)) for d in dims]
+            h = G.dy(rng, tuple(bsh + L), G.cplx(hdt))
             harr = jnp.asarray(h, dtype=hdt)
             if mode == "center-int":
-                kw["h_center"] = int(rng.integers(0, L))
+                kw["h_center"] = [int(rng.integers(0, l)) for l in L]
             elif mode == "center-frac":
-                kw["h_center"] = float([0.5, 1.25, -0.75, 2.5][int(rng.integers(4))])
+                kw["h_center"] = [float([0.5, 1.25, -0.75, 2.5][int(rng.integers(4))]) for _ in L]
+        ishape = {"none": dims, "filters": dims, "both": [k] + dims, "singleton": [1] + dims}[batch]
         with warnings.catch_warnings():
             warnings.simplefilter("ignore")
-            A = linop.CircularConvolve(harr, (n,), ndims=1, input_dtype=idt, jit=False, **kw)
+            A = linop.CircularConvolve(harr, tuple(ishape), ndims=nd, input_dtype=idt, jit=False, **kw)
             res = D.check_operator(A, rng)
-            hd = np.asarray(A.h_dft, dtype=np.complex128).reshape(-1)
+            hd = np.asarray(A.h_dft, dtype=np.complex128).reshape(k, n)
         cin, cout = D.is_complex(A.input_dtype), D.is_complex(A.output_dtype)
         wrap = "none" if cin else ("rc" if cout else "rr")
-        cfgd = {"cls": "CircularConvolve", "n": n, "mode": mode, "h": D._js(np.asarray(h).ravel()), "hdt": hdt, "idt": idt, "kw": {k: v for k, v in kw.items()}}
-        ctx.case({"stream": "leaf-model", "leaf": "spectral", "n": n, "mode": mode, "wrap": wrap}, ("spectral", json.dumps(cfgd, sort_keys=True)))
-        ctx.count(f"leaf-model:spectral:{mode}:{wrap}")
+        cfgd = {"cls": "CircularConvolve", "dims": dims, "ishape": ishape, "batch": batch, "mode": mode, "hshape": list(np.shape(h)),
+                "h": D._js(np.asarray(h).ravel()), "hdt": hdt, "idt": idt, "kw": {kk: v for kk, v in kw.items()}}
+        ctx.case({"stream": "leaf-model", "leaf": "spectral", "dims": dims, "batch": batch, "mode": mode, "wrap": wrap},
+                 ("spectral", json.dumps(cfgd, sort_keys=True)))
+        ctx.count(f"leaf-model:spectral:{nd}d:{batch}:{mode}:{wrap}")
         if res.get("RA") is None or not res["ok"]:
             ctx.disagree("adjoint.leaf_spectral", {"spectral": cfgd}, _js(res["fails"]), "adjoint pair", oracle=spectral_oracle)
             continue
-        leaf = {"t": "spec", "n": n, "Dr": fs2b(hd.real), "Di": fs2b(hd.imag), "wrap": wrap}
-        diff = compare_model(model, [leaf], {"k": "leaf", "i": 0}, res, cin, cout)
+        leaves = [{"t": "spec", "dims": dims, "Dr": fs2b(hd[b].real), "Di": fs2b(hd[b].imag), "wrap": wrap} for b in range(k)]
+        ops = [{"k": "leaf", "i": b} for b in range(k)]
+        if batch == "none":
+            tree = ops[0]
+        elif batch == "both":
+            tree = {"k": "dstack", "ops": ops}
+        else:
+            tree = {"k": "vstack", "ops": ops, "nin": n}
+        diff = compare_model(model, leaves, tree, res, cin, cout)
         if diff is not None:
             ctx.disagree("adjoint.leaf_spectral", {"spectral": cfgd}, "CircularConvolve dense matrices", diff, oracle=spectral_oracle)
 
@@ -927,11 +1010,11 @@ def spectral_oracle(case):
     from scico import linop
 
     c = case["spectral"]
-    h = np.array([complex(*z) if isinstance(z, list) else z for z in c["h"]])
+    h = np.array([complex(*z) if isinstance(z, list) else z for z in c["h"]]).reshape(c["hshape"])
     dt = np.complex128 if c["mode"] == "is-dft" else c["hdt"]
     with warnings.catch_warnings():
         warnings.simplefilter("ignore")
-        A = linop.CircularConvolve(jnp.asarray(h, dtype=dt), (c["n"],), ndims=1, input_dtype=c["idt"], jit=False, **c["kw"])
+        A = linop.CircularConvolve(jnp.asarray(h, dtype=dt), tuple(c["ishape"]), ndims=len(c["dims"]), input_dtype=c["idt"], jit=False, **c["kw"])
         return D.identity_on_random(A, np.random.Generator(np.random.PCG64(77)), k=6)
 
 
